@@ -575,8 +575,8 @@ def _coupling(cls):
             return T.UMNNCouplingTransform(mask, cond_fn(c), integrand_net_layers=[6, 6], cond_size=3, nb_steps=c["nb_steps"], solver=c["solver"],
                                            apply_unconditional_transform=c["uncond"])
         img_shape = None
-        if c["dims"].startswith("4d") and c["uncond"]:
-            img_shape = list(_coupling_shape(c)[1:])
+        if c["dims"].startswith("4d"):
+            img_shape = list(_coupling_shape(c)[1:])  # (passed for every image input; it only matters when the unconditional transform is on)
         fam = {"PiecewiseLinearCouplingTransform": "linear", "PiecewiseQuadraticCouplingTransform": "quadratic", "PiecewiseCubicCouplingTransform": "cubic",
                "PiecewiseRationalQuadraticCouplingTransform": "rq"}[cls]
         return getattr(T, cls)(mask, cond_fn(c), num_bins=c["bins"], tails=_tails(c), tail_bound=_tb(c), apply_unconditional_transform=c["uncond"], img_shape=img_shape, **_mins_kw(c, fam))
